@@ -13,7 +13,6 @@ import (
 
 	"verif/rig"
 	"verif/wire"
-	"vh/e2e"
 )
 
 // seqSpec is one generated request sequence.
@@ -26,7 +25,8 @@ type seqSpec struct {
 	workers    int    // nats
 	lockstep   bool
 	restricted bool
-	burst      bool // probe: all frames of a connection written with one Write
+	abort      *request // pipe/tcp: sent on an extra connection that is closed at once, before the reply can be read
+	burst      bool     // probe: all frames of a connection written with one Write
 	reqs       []*request
 	perConn    [][]*request
 	sentinel   []*request
@@ -39,6 +39,13 @@ func (s *seqSpec) shape() string {
 		sb.WriteByte(kindLetters[r.kind])
 	}
 	return sb.String()
+}
+
+func (s *seqSpec) abortNote() string {
+	if s.abort == nil {
+		return "none"
+	}
+	return fmt.Sprintf("an extra connection sent an unknown-method request (%d-byte frame) and closed without reading the reply", len(s.abort.frame))
 }
 
 func (s *seqSpec) describe() map[string]interface{} {
@@ -87,9 +94,10 @@ func genSpec(id int, rng *rand.Rand, restrictJSONStream, oversize bool) *seqSpec
 	// NATS: one request whose (successful) reply exceeds the server's 1 MiB
 	// output buffer, never last: requests on the same and on other client
 	// connections follow it
-	overAt := -1
+	overAt, hugeAt := -1, -1
 	if v.leg == "nats" && oversize {
 		overAt = rng.Intn(n - 2)
+		hugeAt = rng.Intn(n - 2)
 	}
 	unanswered := make([]bool, nc)
 	for i := 0; i < n; i++ {
@@ -97,6 +105,11 @@ func genSpec(id int, rng *rand.Rand, restrictJSONStream, oversize bool) *seqSpec
 		k := pickKind(rng, !stream)
 		if i == overAt {
 			k = kOversize
+		} else if i == hugeAt {
+			k = kUnknownHuge
+		}
+		if v.leg == "http" && i < n-1 && rng.Intn(10) == 0 {
+			k = kHTTPOverLimit // several per sequence, each followed by other requests
 		}
 		if opts.smallOnly && unanswered[c] {
 			for k == kFire || k == kFireFail {
@@ -126,6 +139,17 @@ func genSpec(id int, rng *rand.Rand, restrictJSONStream, oversize bool) *seqSpec
 			}
 		}
 	}
+	if stream && rng.Intn(2) == 0 {
+		// a client that goes away while its unknown-method request is being
+		// answered: nothing is asserted about that request, everything about
+		// the other connections (tcp: a reply too big for the socket buffers)
+		k := kUnknown
+		if v.leg == "tcp" {
+			k = kUnknownHuge
+		}
+		s.abort = newRequest(rng, s.proto, k, genOpts{stream: true})
+		s.abort.idx = 200000
+	}
 	for c := 0; c < nc; c++ {
 		sn := newSentinel(rng, s.proto)
 		sn.conn = c
@@ -140,7 +164,8 @@ type seqResult struct {
 	mu           sync.Mutex
 	inconclusive []string
 	strays       []stray
-	closed       map[int]string  // conn -> reason the server side ended it
+	closed       map[int]string // conn -> reason the server side ended it
+	stacks       map[int]string
 	abandoned    map[int]string  // stream conn: the server has no goroutine serving it any more, yet left it open
 	deadlock     *deadlockReport // NATS: workers proven parked for good on the write mutex
 	desync       map[int]int     // stream conn -> index of the well-formed request the server rejected as malformed
@@ -379,6 +404,7 @@ func runStreamConn(s *seqSpec, c int, raw rig.RawConn, res *seqResult, barrier f
 	if v := probe.result(); v != "" {
 		res.mu.Lock()
 		res.abandoned[c] = v
+		res.stacks[c] = probe.sample
 		res.mu.Unlock()
 	}
 	wasClosed := atomic.LoadInt32(&closed) == 1
@@ -396,7 +422,7 @@ func runStreamConn(s *seqSpec, c int, raw rig.RawConn, res *seqResult, barrier f
 
 // runSequence executes one sequence against a fresh server.
 func runSequence(s *seqSpec, broker *rig.NatsServer) *seqResult {
-	res := &seqResult{closed: map[int]string{}, abandoned: map[int]string{}, desync: map[int]int{}, byOpid: map[string]*request{}, pf: rig.TProtocolFactory(s.proto)}
+	res := &seqResult{closed: map[int]string{}, abandoned: map[int]string{}, stacks: map[int]string{}, desync: map[int]int{}, byOpid: map[string]*request{}, pf: rig.TProtocolFactory(s.proto)}
 	for _, r := range s.reqs {
 		res.byOpid[r.opid] = r
 	}
@@ -411,6 +437,21 @@ func runSequence(s *seqSpec, broker *rig.NatsServer) *seqResult {
 			return res
 		}
 		var wg sync.WaitGroup
+		if s.abort != nil {
+			wg.Add(1)
+			go func() {
+				defer wg.Done()
+				if c, _, err := leg.dial(); err == nil {
+					done := make(chan struct{})
+					go func() { c.Write(s.abort.frame); close(done) }()
+					select {
+					case <-done:
+					case <-time.After(5 * time.Second):
+					}
+					c.Close()
+				}
+			}()
+		}
 		for c := range s.perConn {
 			raw, key, err := leg.open()
 			if err != nil {
@@ -437,12 +478,7 @@ func runSequence(s *seqSpec, broker *rig.NatsServer) *seqResult {
 			res.notes = append(res.notes, fmt.Sprintf("process-error:%d:%v", n, leg.firstErr.Load()))
 		}
 	case "http":
-		leg, err := e2e.StartLeg("http", s.proto, nil, rig.LegOptions{})
-		if err != nil {
-			res.inconc("cannot start leg: " + err.Error())
-			return res
-		}
-		leg.Handler.Behave = behave
+		leg := startHTTPLeg(s.proto)
 		var next int64 = -1
 		var wg sync.WaitGroup
 		deadline := time.Now().Add(watchdog)
@@ -456,26 +492,32 @@ func runSequence(s *seqSpec, broker *rig.NatsServer) *seqResult {
 						return
 					}
 					r := s.reqs[i]
-					raw, _ := leg.OpenRaw()
-					_, ok := sendWithWatchdog(deadline, func() error { return raw.Send(r.frame) })
+					var f []byte
+					var errText string
+					_, ok := sendWithWatchdog(deadline, func() error { f, r.httpStatus, errText = leg.post(r.frame, r.respLimit); return nil })
 					if !ok {
 						res.inconc(fmt.Sprintf("sequence %d (http/%s): POST of request %d (%s) unanswered after %v", s.id, s.proto, r.idx, r.kindName(), watchdog))
 						return
 					}
-					select {
-					case f := <-raw.Replies():
-						if len(f) == 4 && f[0]|f[1]|f[2]|f[3] == 0 {
-							r.mu.Lock()
-							r.empties++
-							r.mu.Unlock()
-							res.mu.Lock()
-							res.framesIn++
-							res.mu.Unlock()
-							break
-						}
+					switch {
+					case errText != "":
+						r.sendErr = errText
+					case len(f) == 4 && f[0]|f[1]|f[2]|f[3] == 0:
+						r.mu.Lock()
+						r.empties++
+						r.mu.Unlock()
+						res.mu.Lock()
+						res.framesIn++
+						res.mu.Unlock()
+					default:
 						hdrs, _, err := wire.ParseFrame(f)
 						if err == nil && hdrs["_opid"] != r.opid {
-							res.addStray(0, fmt.Sprintf("the HTTP response to the request with op id %s carries op id %q", r.opid, hdrs["_opid"]), f)
+							why := fmt.Sprintf("the HTTP response to the request with op id %s carries op id %q", r.opid, hdrs["_opid"])
+							if o := res.byOpid[hdrs["_opid"]]; o != nil {
+								why += fmt.Sprintf(" - the op id of request %d (%s) of this sequence", o.idx, o.kindName())
+							}
+							res.addStray(r.idx, why, f)
+							r.foreign = true
 							break
 						}
 						res.mu.Lock()
@@ -484,16 +526,12 @@ func runSequence(s *seqSpec, broker *rig.NatsServer) *seqResult {
 						r.mu.Lock()
 						r.replies = append(r.replies, f)
 						r.mu.Unlock()
-					case err := <-raw.Errs():
-						r.sendErr = err.Error()
-					default:
-						r.sendErr = "no response recorded"
 					}
 				}
 			}()
 		}
 		wg.Wait()
-		leg.Stop()
+		leg.stop()
 	case "nats":
 		leg, err := startNatsLeg(broker, s.proto, uint(s.workers))
 		if err != nil {
@@ -532,6 +570,7 @@ func runSequence(s *seqSpec, broker *rig.NatsServer) *seqResult {
 		// wait for the finished-frame counter; when it stalls, look at the
 		// goroutines instead of at the clock
 		last, lastChange := int64(-1), time.Now()
+		prevOrphans := ""
 		for {
 			fin := atomic.LoadInt64(&leg.finished)
 			if fin >= sent {
@@ -546,6 +585,18 @@ func runSequence(s *seqSpec, broker *rig.NatsServer) *seqResult {
 					res.mu.Unlock()
 					leg.wedged = true
 					break
+				}
+				if ids, sample := orphanedWriteMutex(leg.writeMu); ids != "" {
+					if ids == prevOrphans {
+						res.mu.Lock()
+						res.deadlock = &deadlockReport{orphaned: ids, sample: sample}
+						res.mu.Unlock()
+						leg.wedged = true
+						break
+					}
+					prevOrphans = ids
+				} else {
+					prevOrphans = ""
 				}
 				lastChange = time.Now() // look again after the next stall
 			}
@@ -634,6 +685,9 @@ func judge(run verdictSink, s *seqSpec, res *seqResult) {
 	}
 	for _, st := range res.strays {
 		sig := "C14:reply-unattributable:" + s.leg + ":" + s.proto
+		if s.leg == "http" && strings.Contains(st.reason, "of this sequence") {
+			sig = "C14:http-response-holds-another-requests-reply:" + s.proto
+		}
 		run.Violation(sig, st.reason, witness(nil, map[string]interface{}{"connection": st.conn, "frame_hex": hexCap(st.frame, 3000)}))
 	}
 	for _, n := range res.notes {
@@ -692,6 +746,12 @@ func judge(run verdictSink, s *seqSpec, res *seqResult) {
 			continue // nothing was owed on this connection (only oneways / optional replies)
 		}
 		sig, how2 := "C14:connection-abandoned:", "stopped serving connection %d without closing it (two goroutine dumps 1.5 s apart, no reply in between: no goroutine in FSimpleServer.accept for this connection's transport)"
+		if strings.HasPrefix(how, "write-mutex-orphaned") {
+			run.Violation("C14:server-deadlocked:"+s.leg+":write-mutex-never-released",
+				fmt.Sprintf("the processor's write mutex is locked and every goroutine inside FBaseProcessor.Process of this processor (goroutines %s) is parked in sync.Mutex.Lock on it (two dumps 1.5 s apart, no reply in between): its holder left without unlocking; connection %d: last answered request %s, %d two-way requests never answered", strings.TrimPrefix(how, "write-mutex-orphaned:"), c, after, unanswered),
+				witness(next, map[string]interface{}{"connection": c, "goroutine": res.stacks[c], "aborted_connection": s.abortNote()}))
+			continue
+		}
 		if how == "idle" {
 			sig, how2 = "C14:request-consumed-without-reply:", "consumed everything sent on connection %d and is parked waiting for the size prefix of a next frame (two goroutine dumps 1.5 s apart, no reply in between; a simple server works a connection off sequentially)"
 		}
@@ -704,7 +764,27 @@ func judge(run verdictSink, s *seqSpec, res *seqResult) {
 				return hexCap(lastAnswered.frame, 1500)
 			}()}))
 	}
-	if res.deadlock != nil {
+	if res.deadlock != nil && res.deadlock.orphaned != "" {
+		var culprit *request
+		unanswered := 0
+		for _, r := range s.reqs {
+			if !r.oneway && r.replyCount() == 0 {
+				unanswered++
+				if culprit == nil && (r.kind == kUnknownHuge || r.kind == kUnknown) {
+					culprit = r
+				}
+			}
+		}
+		run.Violation("C14:server-deadlocked:"+s.leg+":write-mutex-never-released",
+			fmt.Sprintf("the processor's write mutex is locked and every goroutine inside FBaseProcessor.Process of this processor (goroutines %s) is parked in sync.Mutex.Lock on it (two dumps, no frame finished in between): its holder left without unlocking; %d two-way requests of the sequence were never answered", res.deadlock.orphaned, unanswered),
+			witness(culprit, map[string]interface{}{"goroutine": res.deadlock.sample, "unanswered_requests": unanswered,
+				"trigger": "an unknown-method request whose reply could not be written (kind unknown-method-huge-name: the reply repeats the 600 KB name twice and exceeds the 1 MiB output buffer)"}))
+		for _, r := range all {
+			if r.replyCount() == 0 {
+				skip[r] = true
+			}
+		}
+	} else if res.deadlock != nil {
 		// which request did it: the first reply-over-limit request without a reply
 		var culprit *request
 		unanswered := 0
@@ -737,6 +817,16 @@ func judge(run verdictSink, s *seqSpec, res *seqResult) {
 		run.Add("requests_judged", 1)
 		n := r.replyCount()
 		closedWhy, connClosed := res.closed[r.conn]
+		if r.foreign {
+			continue // reported with the frame it received
+		}
+		if r.kind == kHTTPOverLimit {
+			// the reply does not fit the limit this client announced: HTTP 413, no frame
+			if r.httpStatus != 413 {
+				run.Violation("C14:reply-over-client-limit-not-refused:http:"+s.proto, fmt.Sprintf("the client announced x-frugal-payload-limit %d, the reply is larger; want HTTP 413, got status %d, %d frame(s) %s", r.respLimit, r.httpStatus, n, r.sendErr), witness(r, nil))
+			}
+			continue
+		}
 		if r.sendErr != "" {
 			if s.leg == "http" {
 				run.Violation("C14:transport-error:"+s.leg+":"+r.kindName(), "instead of a reply frame the server answered with a transport-level failure: "+r.sendErr, witness(r, nil))
